@@ -1,469 +1,297 @@
 """
 C10 -- reported solutions are the best candidates and are internally consistent.
 
-Decided: (R1) empty-stage guards dominate every use of a stage result and every later stage call;
-(R2) the carried score differences and the rescaling are the documented formula (lifted and folded
-on a numeric grid; the minimum is taken over the unfiltered list of the same stage); (R3) the two
-selection statements keep exactly `score - min - gap < SOLUTION_PRECISION` and list best first
-(folded on shuffled sample lists); (R4) re-wrapped solutions take every field from the same source
-element in dataclass field order, the diplotype is copied from that element, and the returned
-mapping holds the filtered, sorted list.
+Decided by whole-function folding (the analysis' own interpreter runs the two routines of /repo on scenarios of
+stage results; every collaborator is a recording stub):
+(R6) genotype(): for every scenario of structures / major candidates / refinements and gap, the majors handed to
+the minor stage, the reported list with its order and scores, the chain of every reported solution (major,
+structure, diplotype copied) and the written decompositions equal an independent reading of the statement; a
+scenario with an empty stage ends in AldyException with nothing written.
+(R7) estimate_minor(): every major candidate is refined exactly once, on the evidence filtered for its own gene
+structure, every refinement is returned, and its score carries the major candidate's difference to the best one.
+Earlier structural rules (guard dominance, shape of the selection statements, positional re-wrap wiring) were
+retired in favour of these two: they decided the same clauses but depended on statement shapes and local names.
 Not decided: copy-for-copy consistency inside a chain (C02.R1 / C04.R1), the diplotype (C11).
 """
 
-import ast
-import itertools
+import collections
 
-from sa.cfg import cfg_of
-from sa.dataflow import reaching
-from sa.fold import Evaluator, Obj, Raised, Unfoldable, module_consts
-from sa.guards import exiting_guards, find_calls, fmt_tests, guard_table
-from sa.loader import AnalysisError, call_name, calls_in, kwarg, walk_local
+from sa.fold import Obj, Raised, Unfoldable
 
 PROPERTY = "C10"
 EXPLANATION = (
-    "Guard dominance (raise on empty stage result before min()/later stages) on the CFG of genotype(); "
-    "def-use expansion + finite-domain folding of the score-carry statements in genotype() and estimate_minor() "
-    "against the documented formula on a numeric grid; the two filter+sort statements lifted and folded on shuffled "
-    "sample lists for gap in {0, 0.1, 0.3}; positional wiring of the MajorSolution/MinorSolution re-wraps checked "
-    "against the dataclass field order read from solutions.py; reaching definitions of the returned list."
+    "Whole-function folding: genotype() and estimate_minor() are executed by the analysis' interpreter (sa.fold.Lifted) "
+    "with recording stubs for every collaborator, over fixed and seeded random scenarios of stage results "
+    "(1-3 structures, 0-3 major candidates each, 0-2 refinements each, gap in {0, .05, .1, .3}); the outcome is "
+    "compared with an independent reading of the statement (carried differences, rescaling, relative filter with "
+    "the solution precision, best-first order, chain consistency, error on an empty stage)."
 )
-ASSUMPTIONS = ["gap >= 0 (so the best element of a non-empty list always survives the filter)"]
+ASSUMPTIONS = ["gap >= 0 (so the best element of a non-empty list always survives the filter)",
+               "the combined score of a refinement is its score times (structure score + 1) / (best structure score + 1), and a major "
+               "candidate carries its structure's score difference additively -- the reading confirmed on the pinned tree"]
 
 
-def mk(score, name="x", **kw):
-    return Obj(score=score, _solution_nice=lambda: name, **kw)
+def spec_selection(sc, gap, prec):
+    """Independent reading of the statement: -> 'raise' | (majors handed to the minor stage, reported list)."""
+    if not sc.cn:
+        return "raise"
+    mincn = min(s for _, s in sc.cn)
+    majors = [(ml, ms + s - mincn, l, s) for l, s in sc.cn for ml, ms in sc.majors.get(l, [])]
+    if not majors:
+        return "raise"
+    mm = min(x[1] for x in majors)
+    kept = sorted([x for x in majors if x[1] - mm - gap < prec], key=lambda x: (int(1000 * x[1]), x[0]))
+    minors = [(nl, ns * (cs + 1) / (mincn + 1), ml, cl) for ml, _, cl, cs in kept for nl, ns in sc.minors.get(ml, [])]
+    if not minors:
+        return "raise"
+    mn = min(x[1] for x in minors)
+    out = sorted([x for x in minors if x[1] - mn - gap < prec], key=lambda x: (int(1000 * x[1]), x[0]))
+    return [(x[0], x[1]) for x in kept], out
 
 
-def r1(repo, res):
-    f = repo.func("genotype::genotype")
-    res.analysed(f)
-    c = cfg_of(f)
-    stage_lists = {"cn_sols": ["estimate_major"], "major_sols": ["estimate_minor"],
-                   "minor_sols": ["write_vcf", "write_decomposition"]}
-    n = 0
-    for lst, later in stage_lists.items():
-        sinks = []
-        for call in calls_in(f):
-            if call_name(call) == "min" and call.args and any(
-                    isinstance(x, ast.Name) and x.id == lst for x in ast.walk(call.args[0])):
-                sinks.append(("min over " + lst, call))
-        for suf in later:
-            sinks += [(suf, x) for x in find_calls(f, suf)]
-        if not sinks:
-            res.err("C10.R1", f"no use of stage result `{lst}` found in genotype()")
-            continue
-        for label, call in sinks:
-            gs = exiting_guards(c, c.node_of(call), kinds=("raise",))
-            tab = guard_table(gs, [{"v": []}, {"v": [mk(1.0)]}], lambda p: {lst: p["v"]})
-            n += 1
-            res.ob("C10.R1", f, call, tab[0] and not tab[1],
-                   expected=f"`raise` when `{lst}` is empty dominates this use (and does not fire for a non-empty list)",
-                   found="dominating raising guards: " + fmt_tests(gs),
-                   clause="when no admissible solution exists at some stage, no genotype is reported and an error says so",
-                   key=f"{lst}|{label}")
-    res.floor("C10.R1", "guarded uses of stage results", n, 7)
-    # the error type
-    for r in [x for x in walk_local(f) if isinstance(x, ast.Raise)]:
-        pass
+def selection_scenarios():
+    import random
 
+    from sa.report import seed, thorough
 
-def _aug_score_sites(func):
-    """`<elem>.score += <delta>` statements."""
-    return [n for n in walk_local(func) if isinstance(n, ast.AugAssign) and isinstance(n.op, ast.Add)
-            and isinstance(n.target, ast.Attribute) and n.target.attr == "score"]
-
-
-def _loop_of(node):
-    p = getattr(node, "_parent", None)
-    while p is not None and not isinstance(p, ast.For):
-        p = getattr(p, "_parent", None)
-    return p
-
-
-def _def_before(func, name, node):
-    """The unique reaching definition (plain assignment) of `name` at `node`."""
-    c = cfg_of(func)
-    IN, defs = reaching(c, name)
-    ds = IN[c.node_of(node)]
-    if len(ds) != 1:
-        return None
-    d = defs[next(iter(ds))]
-    return d if isinstance(d, ast.Assign) else None
-
-
-def r2(repo, res):
-    consts = module_consts(repo.mod("common"))
-    g = repo.func("genotype::genotype")
-    em = repo.func("minor::estimate_minor")
-    res.analysed(g, em)
-    # --- (a) major score carries the structure score difference ---------------------------------
-    for func, label, src_stage, lst_name in ((g, "major<-structure", "estimate_major", "cn_sols"),
-                                             (em, "minor<-major", "solve_minor_model", "major_sols")):
-        sites = _aug_score_sites(func)
-        if len(sites) != 1:
-            res.err("C10.R2", f"expected one `<solution>.score += ...` in {func.name}, found {len(sites)}")
-            continue
-        st = sites[0]
-        inner = _loop_of(st)  # for s in sols
-        outer = _loop_of(inner) if inner is not None else None
-        ok_src = False
-        outer_var = None
-        if inner is not None and outer is not None and isinstance(inner.iter, ast.Name):
-            d = _def_before(func, inner.iter.id, inner)
-            if d is not None and isinstance(d.value, ast.Call) and call_name(d.value).endswith(src_stage):
-                # the parent solution the stage was called with
-                ov = outer.target.elts[-1] if isinstance(outer.target, ast.Tuple) else outer.target
-                outer_var = ov.id if isinstance(ov, ast.Name) else None
-                passed = [ast.unparse(a) for a in d.value.args] + [ast.unparse(k.value) for k in d.value.keywords]
-                ok_src = outer_var in passed and isinstance(st.target.value, ast.Name) \
-                    and st.target.value.id == (inner.target.id if isinstance(inner.target, ast.Name) else None)
-        res.ob("C10.R2", func, st, ok_src,
-               expected=f"the increment is applied to every solution returned by {src_stage}(...<parent>...) for that parent",
-               found=f"loop over `{ast.unparse(inner.iter) if inner else None}` inside loop over `{outer_var}`",
-               key=f"{label}:applies-to")
-        # fold the increment: parent.score - min(parent list)
-        names = {n.id for n in ast.walk(st.value) if isinstance(n, ast.Name)}
-        min_names = [n for n in names if n != outer_var]
-        okf, found = False, ""
-        try:
-            vals = []
-            for ps, mn in itertools.product([0.0, 1.25, 3.5], [0.0, 0.5]):
-                env = {outer_var: mk(ps)}
-                for mnn in min_names:
-                    env[mnn] = mn
-                vals.append((ps, mn, Evaluator(env, consts=consts).ev(st.value)))
-            okf = all(abs(v - (ps - mn)) < 1e-12 for ps, mn, v in vals)
-            found = ast.unparse(st.value)
-        except (Unfoldable, Raised) as e:
-            res.err("C10.R2", f"score increment in {func.name} outside folding language: {e}")
-            continue
-        res.ob("C10.R2", func, st, okf, expected="increment = parent.score - min(parent scores)", found=found,
-               clause="a candidate's score carries over the score differences of the solutions it was derived from",
-               key=f"{label}:increment")
-        # the minimum is over the full parent list
-        for mnn in min_names:
-            d = _def_before(func, mnn, st)
-            okm, found = False, "no unique definition"
-            if d is not None:
-                try:
-                    lst = [mk(2.0, "b"), mk(0.75, "a"), mk(5.0, "c")]
-                    names_in = {n.id for n in ast.walk(d.value) if isinstance(n, ast.Name)} - {"min", "m", "x"}
-                    v = Evaluator({lst_name: lst}, consts=consts).ev(d.value)
-                    okm = abs(v - 0.75) < 1e-12 and lst_name in names_in
-                    found = ast.unparse(d.value)
-                except (Unfoldable, Raised) as e:
-                    found = f"unfoldable: {e}"
-            res.ob("C10.R2", func, d if d is not None else st, okm,
-                   expected=f"{mnn} = minimum score over the whole list `{lst_name}`", found=found, key=f"{label}:min")
-        # the list the minimum ranges over is the unfiltered stage result
-        if func is g:
-            defs = [n for n in walk_local(g) if isinstance(n, ast.Assign) and isinstance(n.targets[0], ast.Name)
-                    and n.targets[0].id == lst_name]
-            okl = all((isinstance(n.value, ast.Call) and (call_name(n.value).endswith("estimate_cn")
-                                                          or (call_name(n.value) == "sorted" and
-                                                              ast.unparse(n.value.args[0]) == lst_name)))
-                      for n in defs)
-            res.ob("C10.R2", g, defs[0] if defs else g, okl and bool(defs),
-                   expected="the structure list is the stage result, only re-sorted (never filtered) before the minimum is taken",
-                   found="; ".join(ast.unparse(n.value)[:60] for n in defs), key=f"{label}:unfiltered")
-    # --- (b) rescaling of the minor score --------------------------------------------------------
-    ctor = [x for x in calls_in(g) if call_name(x).endswith("MinorSolution")]
-    if len(ctor) != 1:
-        res.err("C10.R2", f"expected one MinorSolution re-wrap in genotype(), found {len(ctor)}")
-        return
-    sc = ctor[0].args[0] if ctor[0].args else kwarg(ctor[0], "score")
-    loop = _loop_of(ctor[0])
-    src = loop.target.id if loop is not None and isinstance(loop.target, ast.Name) else None
-    try:
-        ok = True
-        slack_names = [n.id for n in ast.walk(sc) if isinstance(n, ast.Name) and n.id not in (src,)]
-        for s_min, s_cn, m_cn in itertools.product([0.0, 1.5], [0.0, 0.4, 2.0], [0.0, 0.4]):
-            if m_cn > s_cn:
-                continue
-            env = {src: mk(s_min, major_solution=Obj(cn_solution=mk(s_cn))), "min_cn_score": m_cn, "SLACK": 1}
-            v = Evaluator(env, defs={k: v for k, v in _simple_defs(g).items() if k == "SLACK"}).ev(sc)
-            want = s_min * (s_cn + 1) / (m_cn + 1)
-            ok = ok and abs(v - want) < 1e-9
-        res.ob("C10.R2", g, sc, ok, expected="score * (S_cn + 1) / (min S_cn + 1)", found=ast.unparse(sc)[:120],
-               clause="rescaled by the structure score", key="minor:rescale")
-    except (Unfoldable, Raised) as e:
-        res.err("C10.R2", f"rescale expression outside folding language: {e}")
-    d = _def_before(g, "min_cn_score", ctor[0])
-    res.ob("C10.R2", g, d if d is not None else g, d is not None, expected="min_cn_score has one definition reaching the rescale",
-           found=ast.unparse(d.value) if d is not None else "ambiguous", key="minor:rescale-min")
-
-
-def _simple_defs(func):
-    return {n.targets[0].id: n.value for n in walk_local(func)
-            if isinstance(n, ast.Assign) and isinstance(n.targets[0], ast.Name) and isinstance(n.value, ast.Constant)}
-
-
-def r3(repo, res):
-    consts = module_consts(repo.mod("common"))
-    prec = consts.get("SOLUTION_PRECISION")
-    if prec is None:
-        res.err("C10.R3", "SOLUTION_PRECISION not found in common.py")
-        return
-    g = repo.func("genotype::genotype")
-    scores = [0.5, 0.0101, 0.25, 0.0099, 0.005, 0.105, 0.1099, 0.0, 0.31, 0.3099, 0.0]
-    for lst, minname in (("major_sols", "min_major_score"), ("minor_sols", "min_minor_score")):
-        sel = [n for n in walk_local(g) if isinstance(n, ast.Assign) and isinstance(n.targets[0], ast.Name)
-               and n.targets[0].id == lst and isinstance(n.value, ast.Call) and call_name(n.value) == "sorted"
-               and isinstance(n.value.args[0], ast.ListComp) and n.value.args[0].generators[0].ifs]
-        if len(sel) != 1:
-            res.err("C10.R3", f"selection statement for `{lst}` not found")
-            continue
-        st = sel[0]
-        dmin = _def_before(g, minname, st)
-        if dmin is None:
-            # the minimum may carry another name: take the name used in the filter
-            cand = [n.id for n in ast.walk(st.value.args[0].generators[0].ifs[0]) if isinstance(n, ast.Name)
-                    and n.id not in (lst, "profile", "SOLUTION_PRECISION")
-                    and n.id != st.value.args[0].generators[0].target.id]
-            for cnm in cand:
-                dmin = _def_before(g, cnm, st)
-                if dmin is not None:
-                    minname = cnm
-                    break
-        if dmin is None:
-            res.err("C10.R3", f"definition of the minimum used by the `{lst}` filter not found")
-            continue
-        all_ok = True
-        detail = ""
-        try:
-            for gap in (0.0, 0.1, 0.3):
-                items = [mk(s, f"n{i}") for i, s in enumerate(scores)]
-                ev = Evaluator({"profile.gap": gap}, consts=consts)
-                ev.locals[lst] = list(items)
-                kind, v = ev.run([dmin, st])
-                out = ev.locals[lst]
-                mn = min(scores)
-                want = sorted([s for s in scores if s - mn - gap < prec])
-                got = [o.score for o in out]
-                ordered = all(got[i] <= got[i + 1] + 1e-3 for i in range(len(got) - 1))
-                if sorted(got) != want or not ordered or got[0] != mn:
-                    all_ok = False
-                    detail = f"gap={gap}: kept {got}, expected {want} best first"
-        except (Unfoldable, Raised) as e:
-            res.err("C10.R3", f"selection of `{lst}` outside folding language: {e}")
-            continue
-        res.ob("C10.R3", g, st, all_ok,
-               expected="keep exactly score - min(all) - gap < SOLUTION_PRECISION, listed best first",
-               found="ok on 3 gaps x 11 scores" if all_ok else detail,
-               clause="exactly those candidates whose combined score lies within the gap (plus the precision) of the best, best first",
-               key=f"select:{lst}")
-        # minimum over the list *before* filtering: its definition precedes the selection and reads the same list
-        c = cfg_of(g)
-        ok = c.dominates(c.node_of(dmin), c.node_of(st)) and any(
-            isinstance(n, ast.Name) and n.id == lst for n in ast.walk(dmin.value))
-        res.ob("C10.R3", g, dmin, ok, expected=f"minimum computed over `{lst}` before it is filtered",
-               found=ast.unparse(dmin.value), key=f"min-before-filter:{lst}")
-
-
-def dataclass_fields(repo, cls):
-    c = repo.cls(f"solutions::{cls}")
-    return [n.target.id for n in c.body if isinstance(n, ast.AnnAssign) and isinstance(n.target, ast.Name)]
-
-
-def r4(repo, res):
-    g = repo.func("genotype::genotype")
-    for cls, exempt in (("MajorSolution", set()), ("MinorSolution", {"profile"})):
-        fields = dataclass_fields(repo, cls)
-        ctors = [x for x in calls_in(g) if call_name(x).endswith(cls)]
-        if not ctors:
-            res.err("C10.R4", f"no {cls} re-wrap in genotype()")
-            continue
-        for x in ctors:
-            # source element
-            src = None
-            p = x._parent
-            while p is not None and src is None:
-                if isinstance(p, (ast.ListComp, ast.GeneratorExp)):
-                    src = p.generators[0].target.id if isinstance(p.generators[0].target, ast.Name) else None
-                elif isinstance(p, ast.For):
-                    src = p.target.id if isinstance(p.target, ast.Name) else None
-                p = getattr(p, "_parent", None)
-            pairs = list(zip(fields, x.args)) + [(k.arg, k.value) for k in x.keywords if k.arg]
-            bad = []
-            for fld, arg in pairs:
-                if fld in exempt:
-                    continue
-                direct = {n.attr for n in ast.walk(arg) if isinstance(n, ast.Attribute)
-                          and isinstance(n.value, ast.Name) and n.value.id == src}
-                if fld == "score":
-                    if "score" not in direct:
-                        bad.append(f"{fld}<-{ast.unparse(arg)[:40]}")
-                elif ast.unparse(arg) != f"{src}.{fld}":
-                    bad.append(f"{fld}<-{ast.unparse(arg)[:40]}")
-            need = [f_ for f_ in fields if f_ not in exempt]
-            missing = [f_ for f_ in need if f_ not in [p_[0] for p_ in pairs]]
-            res.ob("C10.R4", g, x, not bad and not missing and src is not None,
-                   expected=f"{cls}({', '.join(src + '.' + f_ if src else f_ for f_ in need)}) -- every field from the same source element",
-                   found=("ok" if not bad and not missing else f"mismatch {bad} missing {missing}"),
-                   clause="every reported solution is a consistent chain", key=f"rewrap:{cls}")
-    # diplotype copied from the same element; appended to the reported list
-    sd = find_calls(g, "set_diplotype")
-    ok = False
-    if sd:
-        x = sd[0]
-        loop = _loop_of(x)
-        src = loop.target.id if loop is not None and isinstance(loop.target, ast.Name) else None
-        ok = bool(x.args) and ast.unparse(x.args[0]) == f"{src}.get_diplotype()"
-    res.ob("C10.R4", g, sd[0] if sd else g, ok, expected="diplotype copied from the element being re-wrapped",
-           found=ast.unparse(sd[0]) if sd else "no set_diplotype call", key="diplotype-copy")
-    # the returned mapping holds the filtered, sorted list
-    rets = [n for n in walk_local(g) if isinstance(n, ast.Return) and isinstance(n.value, ast.Dict)]
-    c = cfg_of(g)
-    okr = False
-    found = "no dict return"
-    if rets:
-        r = rets[-1]
-        v = r.value.values[0] if r.value.values else None
-        if isinstance(v, ast.Name):
-            IN, defs = reaching(c, v.id)
-            ds = [defs[d] for d in IN[c.node_of(r)]]
-            okr = len(ds) == 1 and isinstance(ds[0], ast.Assign) and isinstance(ds[0].value, ast.Call) \
-                and call_name(ds[0].value) == "sorted"
-            found = "; ".join(ast.unparse(d)[:70] for d in ds)
-    res.ob("C10.R4", g, rets[-1] if rets else g, okr,
-           expected="genotype() returns the list produced by the final filter+sort statement", found=found, key="returned-list")
-    # the writers and the log loop iterate that same list
-    for suf in ("write_vcf", "write_decomposition"):
-        cs = find_calls(g, suf)
-        if cs:
-            args = [ast.unparse(a) for a in cs[0].args]
-            ok = "minor_sols" in args or "minor_sol" in args
-            res.ob("C10.R4", g, cs[0], ok, expected="writers receive the selected solutions", found=", ".join(args)[:100],
-                   key=f"writer-input:{suf}")
-
-
-def _loop_relative_guards(c, loop, node):
-    """Guard facts of `node` that arise inside `loop` (facts that already hold at the loop head are dropped)."""
-    head = {(id(t), p) for t, p in c.guards(c.node_of(loop))}
+    rnd = random.Random(seed() + 10)
+    grid = [0.0, 0.0, 0.04, 0.1, 0.25, 0.3, 0.5, 1.0, 2.0]
     out = []
-    for t, p in c.guards(c.node_of(node)):
-        if (id(t), p) in head or t is loop:
-            continue
-        out.append((t, p))
+    fixed = [
+        dict(cn=[("A", 0.5), ("B", 0.2)], majors={"A": [("A1", 0.0), ("A2", 0.3)], "B": [("B1", 0.2)]},
+             minors={"A1": [("A1a", 1.0), ("A1b", 1.05)], "A2": [("A2a", 0.9)], "B1": [("B1a", 1.1), ("B1b", 1.0)]}),
+        dict(cn=[("A", 1.0), ("B", 1.0)], majors={"A": [("A1", 0.1)], "B": [("B1", 0.1)]}, minors={"A1": [("A1a", 0.5)], "B1": [("B1a", 0.5)]}),
+        dict(cn=[("A", 0.0), ("B", 0.2)], majors={"A": [], "B": [("B1", 0.2)]}, minors={"B1": [("B1a", 1.1)]}),   # best-ranked structure without majors
+        dict(cn=[("A", 0.3), ("B", 0.2)], majors={"A": [("A1", 0.0)], "B": []}, minors={"A1": [("A1a", 0.4)]}),
+        dict(cn=[("A", 0.0), ("B", 0.2)], majors={"A": [("A1", 0.0)], "B": [("B1", 0.0)]}, minors={"A1": [], "B1": [("B1a", 1.1)]}),  # best major has no refinement
+        dict(cn=[], majors={}, minors={}),
+        dict(cn=[("A", 0.0)], majors={"A": []}, minors={}),
+        dict(cn=[("A", 0.0)], majors={"A": [("A1", 0.0)]}, minors={"A1": []}),
+    ]
+    for f_ in fixed:
+        for gap in (0.0, 0.1, 0.3):
+            out.append((f_, gap))
+    for _ in range(400 if thorough() else 40):
+        ncn = rnd.randint(1, 3)
+        cn = [(chr(65 + i), rnd.choice(grid)) for i in range(ncn)]
+        majors = {l: [(f"{l}{j}", rnd.choice(grid)) for j in range(rnd.randint(0 if rnd.random() < 0.1 else 1, 3))] for l, _ in cn}
+        minors = {ml: [(f"{ml}{k}", rnd.choice(grid) + rnd.choice([0, 0.001, 0.5])) for k in "ab"[:rnd.randint(0 if rnd.random() < 0.1 else 1, 2)]]
+                  for ms in majors.values() for ml, _ in ms}
+        out.append((dict(cn=cn, majors=majors, minors=minors), rnd.choice([0.0, 0.05, 0.1, 0.3])))
     return out
 
 
-def r5(repo, res):
-    """Every candidate produced by one stage is handed to the next (no pruning before the final, relative filter)."""
+def r6(repo, res):
+    """genotype() folded whole on scenarios of stage results: the reported list, its order and scores, the majors handed
+    to the minor stage, the chain of every reported solution and the error on an empty stage equal the independent reading."""
+    from checks._genotype import GenotypeModel, Scenario, events
+
     g = repo.func("genotype::genotype")
-    em = repo.func("minor::estimate_minor")
-    cg, ce = cfg_of(g), cfg_of(em)
-    plan = [(g, cg, "estimate_major", "cn_sols"), (em, ce, "solve_minor_model", None)]
-    for func, c, callee, lst in plan:
-        calls = find_calls(func, callee)
-        if not calls:
-            res.err("C10.R5", f"call of {callee} not found in {func.name}")
-            continue
-        call = calls[0]
-        loops = []
-        p = call
-        while p is not None and p is not func:
-            if isinstance(p, ast.For):
-                loops.append(p)
-            p = getattr(p, "_parent", None)
-        if not loops:
-            res.ob("C10.R5", func, call, False, expected=f"{callee} is called once per candidate of the previous stage", found="not inside a loop",
-                   key=f"all-candidates:{callee}")
-            continue
-        outer = loops[-1]
-        extra = [(t, p_) for t, p_ in _loop_relative_guards(c, outer, call) if not isinstance(t, ast.For)]
-        inner_loops = [t for t, p_ in _loop_relative_guards(c, outer, call) if isinstance(t, ast.For)]
-        ok = not extra
-        res.ob("C10.R5", func, call, ok,
-               expected=f"{callee} runs for every element of the loop(s) around it -- no skip, break or condition before it",
-               found="unconditional" if ok else "guarded by " + "; ".join(("" if p_ else "not ") + ast.unparse(t)[:70] for t, p_ in extra),
-               clause="the reported solutions are exactly those candidates within the gap of the best *combined* score "
-                      "(a candidate may only be dropped by the final, relative filter)",
-               key=f"all-candidates:{callee}")
-        # the results of the call are accumulated unconditionally as well
-        acc = [n for n in walk_local(outer) if isinstance(n, ast.AugAssign) and isinstance(n.op, ast.Add)
-               and isinstance(n.target, ast.Name) and isinstance(n.value, ast.Name) and n.target.id.endswith("_sols")]
-        ok2 = bool(acc) and not [x for x in _loop_relative_guards(c, outer, acc[0]) if not isinstance(x[0], ast.For)]
-        res.ob("C10.R5", func, acc[0] if acc else outer, ok2, expected="every solution returned by the stage is collected",
-               found=ast.unparse(acc[0]) if acc else "no accumulation statement", key=f"collect:{callee}")
-        if lst:
-            it = ast.unparse(outer.iter)
-            ok3 = it in (lst, f"enumerate({lst})")
-            res.ob("C10.R5", func, outer, ok3, expected=f"the loop ranges over the whole list `{lst}`", found=it, key=f"whole-list:{callee}")
-    # estimate_minor: the structure groups partition the whole input list
-    try:
-        ms = [mk(1.0, "a", cn_solution="c1"), mk(2.0, "b", cn_solution="c2"), mk(3.0, "c", cn_solution="c1")]
-        groups = [n for n in walk_local(em) if isinstance(n, ast.Assign) and isinstance(n.targets[0], ast.Name) and n.targets[0].id == "majors"]
-        cs = [n for n in walk_local(em) if isinstance(n, ast.Assign) and isinstance(n.targets[0], ast.Name) and n.targets[0].id == "cn_sols"]
-        if groups and cs:
-            cn_sols = Evaluator({"major_sols": ms}).ev(cs[0].value)
-            seen = []
-            for c_ in cn_sols:
-                seen += Evaluator({"major_sols": ms, "c": c_}).ev(groups[0].value)
-            ok = sorted(id(x) for x in seen) == sorted(id(x) for x in ms)
-        else:
-            ok = False
-    except (Unfoldable, Raised) as e:
-        res.err("C10.R5", f"structure grouping in estimate_minor outside folding language: {e}")
+    res.analysed(g)
+    gm = GenotypeModel(repo)
+    prec = gm.consts.get("SOLUTION_PRECISION")
+    if prec is None:
+        res.err("C10.R6", "SOLUTION_PRECISION not found in common.py")
         return
-    res.ob("C10.R5", em, groups[0] if groups else em, ok, expected="grouping by structure covers every major solution exactly once",
-           found="partition" if ok else "not a partition", key="grouping-partition")
-    # genotype(): every refined candidate is re-wrapped and collected
-    app = [n for n in walk_local(g) if isinstance(n, ast.Call) and isinstance(n.func, ast.Attribute) and n.func.attr == "append"
-           and ast.unparse(n.func.value) == "minor_sols"]
-    okw = False
-    if app:
-        lp = _loop_of(app[0])
-        okw = lp is not None and any(isinstance(x, ast.Call) and call_name(x).endswith("estimate_minor") for x in ast.walk(lp.iter)) \
-            and not [x for x in _loop_relative_guards(cg, lp, app[0]) if not isinstance(x[0], ast.For)]
-    res.ob("C10.R5", g, app[0] if app else g, okw, expected="every solution returned by estimate_minor is re-wrapped and collected", found="ok" if okw else "conditional / missing",
-           key="collect:estimate_minor")
-    mc = find_calls(g, "estimate_minor")
-    if mc:
-        a = [ast.unparse(x) for x in mc[0].args]
-        res.ob("C10.R5", g, mc[0], "major_sols" in a, expected="the minor stage receives the selected major solutions", found=", ".join(a)[:80],
-               key="minor-input")
+    bad = collections.OrderedDict()
+    n = 0
+    for desc, gap in selection_scenarios():
+        out = Obj(name="out.aldy")
+        sc = Scenario(args=dict(output_file=out), params=dict(gap=gap), **desc)
+        try:
+            kind, val, trace, printed = gm.run(sc)
+        except Unfoldable as e:
+            res.err("C10.R6", f"genotype() outside the folding language: {e}")
+            return
+        n += 1
+        want = spec_selection(sc, gap, prec)
+        tag = f"structures {desc['cn']}, majors {desc['majors']}, minors {desc['minors']}, gap {gap}"
+        if want == "raise":
+            if not (kind == "raise" and val == "AldyException"):
+                bad.setdefault("empty-stage", f"{tag}: a stage has no solution, yet genotype() gives {kind} {str(val)[:80]}")
+            if events(trace, "write_decomposition") or events(trace, "write_vcf"):
+                bad.setdefault("empty-stage", f"{tag}: output written although a stage has no solution")
+            continue
+        kept, rep = want
+        if kind != "return" or not isinstance(val, dict) or len(val) != 1:
+            bad.setdefault("reported-list", f"{tag}: {kind} {str(val)[:80]}")
+            continue
+        got = list(val.values())[0]
+        em = events(trace, "estimate_minor")
+        handed = em[0][1] if len(em) == 1 else None
+        if handed is None or [h[0] for h in handed] != [k[0] for k in kept] or any(abs(h[1] - k[1]) > 1e-9 for h, k in zip(handed, kept)):
+            bad.setdefault("majors-selected", f"{tag}: minor stage receives {handed}; candidates within the gap of the best carried score are {kept}")
+        for mj in (em[0][3] if len(em) == 1 else []):
+            if getattr(mj, "added", None) != ["+" + str(mj.solution)] or getattr(getattr(mj, "cn_solution", None), "label", None) not in [c_[0] for c_ in desc["cn"]
+                                                                                   if any(ml == mj.solution for ml, _ in desc["majors"].get(c_[0], []))]:
+                bad.setdefault("chain", f"{tag}: major candidate {mj.solution} reaches the minor stage with novel variants {getattr(mj, 'added', None)} "
+                                        f"and structure {getattr(getattr(mj, 'cn_solution', None), 'label', None)}: not what the major stage returned")
+        labels = [(m.solution, m.score) for m in got]
+        if [l for l, _ in labels] != [r_[0] for r_ in rep] or any(abs(a_[1] - b_[1]) > 1e-9 for a_, b_ in zip(labels, rep)):
+            bad.setdefault("reported-list", f"{tag}: reported {labels}; expected (best first, within the gap) {[(r_[0], round(r_[1], 6)) for r_ in rep]}")
+            continue
+        for m, (nl, nsc, ml, cl) in zip(got, rep):
+            mj = getattr(m, "major_solution", None)
+            if mj is None or mj.solution != ml or getattr(mj.cn_solution, "label", None) != cl or m.diplotype != f"D[{nl}]":
+                bad.setdefault("chain", f"{tag}: reported {nl} is chained to major {getattr(mj, 'solution', None)} / structure "
+                                        f"{getattr(getattr(mj, 'cn_solution', None), 'label', None)} with diplotype {m.diplotype}; expected {ml} / {cl} / D[{nl}]")
+        wd = events(trace, "write_decomposition")
+        if [(w[4], w[5].solution) for w in wd] != [(i + 1, r_[0]) for i, r_ in enumerate(rep)]:
+            bad.setdefault("written", f"{tag}: decomposition written for {[(w[4], w[5].solution) for w in wd]}; expected every reported solution once, numbered from 1")
+    res.count("C10.R6:scenarios folded", n)
+    clauses = {"empty-stage": "when no admissible solution exists at some stage, no genotype is reported and an error says so",
+               "majors-selected": "a candidate's score carries over the score differences of the structure and major-allele solutions it was derived from",
+               "reported-list": "exactly those refined candidates whose combined score lies within the gap (plus the solution precision) of the best combined score, listed best first",
+               "chain": "every reported solution is a consistent chain", "written": "the solutions finally reported"}
+    for key, clause in clauses.items():
+        res.ob("C10.R6", g, g, key not in bad, expected=f"on every scenario: {clause}", found=f"{n} scenarios agree" if key not in bad else bad[key],
+               clause=clause, key=f"pipeline:{key}")
+
+
+def r7(repo, res):
+    """estimate_minor folded whole: every major candidate it is given is refined exactly once, on the evidence filtered
+    for that candidate's own gene structure; every refinement is returned; its score carries the major candidate's
+    score difference to the best major candidate."""
+    import random
+
+    from sa.fold import Lifted
+    from sa.report import seed, thorough
+
+    em = repo.func("minor::estimate_minor")
+    res.analysed(em)
+    rnd = random.Random(seed() + 20)
+    bad = collections.OrderedDict()
+    n = 0
+    for trial in range(60 if thorough() else 12):
+        ncn = rnd.randint(1, 3)
+        cns = [Obj(label=f"C{i}", _solution_nice=(lambda i=i: f"C{i}"), position_cn=lambda p: 2) for i in range(ncn)]
+        rnd.shuffle(cns)
+        majors = []
+        for j in range(rnd.randint(1, 5)):
+            c = rnd.choice(cns)
+            majors.append(Obj(label=f"M{j}", score=rnd.choice([0.0, 0.25, 0.5, 1.0, 1.5]), cn_solution=c, added=[],
+                              solution={Obj(major=f"{j + 1}"): 2}, _solution_nice=(lambda j=j: f"M{j}")))
+        stage = {m.label: [(f"{m.label}{k}", rnd.choice([0.0, 0.1, 0.7])) for k in "ab"[:rnd.randint(0, 2)]] for m in majors}
+        calls = []
+
+        def solve(gene, cov, major_sol, alleles, mutations, solver, max_solutions=1, **kw):
+            calls.append((major_sol.label, getattr(cov, "for_structure", None), max_solutions))
+            return [Obj(label=l, score=s_, major_solution=major_sol) for l, s_ in stage[major_sol.label]]
+
+        def filtered(fn_):
+            # the quality filter gives the base evidence; a structure filter is probed for the structure it was made for
+            o = Obj(filtered=filtered_again, _coverage={})
+            return o
+
+        def filtered_again(fn_):
+            probe = []
+            mut = Obj(pos=5, op="_")
+            cov_probe = Obj(basic_filter=lambda m, cn=None: probe.append(cn) or True)
+            try:
+                fn_(cov_probe, mut)
+            except TypeError:
+                pass
+            return Obj(for_structure=fn_.structure if hasattr(fn_, "structure") else None, _coverage={}, filtered=filtered_again)
+
+        def partial(f_, *a):
+            def g_(*b):
+                return f_(*a, *b)
+            g_.structure = a[0].label if a and isinstance(a[0], Obj) and "label" in a[0].__dict__ else None
+            return g_
+
+        gene = Obj(alleles={f"{j + 1}": Obj(minors={}, func_muts=set()) for j in range(6)}, random_mutations=set(), region_at=lambda p: None)
+        coverage = Obj(filtered=filtered, profile=Obj(cn_max=20))
+        try:
+            fn = Lifted(em, funcs={"SolvedAllele": lambda *a: a, "functools.partial": partial, "natsorted": lambda it, key=None: sorted(it, key=key),
+                                   "_print_candidates": lambda *a: None, "solve_minor_model": solve, "Mutation": lambda *a: a},
+                        env={"Coverage": Obj(quality_filter="QUALITY")})
+            shown = list(majors)
+            rnd.shuffle(shown)
+            out = fn(gene, coverage, shown, "any", max_solutions=3)
+        except Unfoldable as e:
+            res.err("C10.R7", f"estimate_minor outside the folding language: {e}")
+            return
+        except Raised as e:
+            bad.setdefault("all-candidates", f"majors {[(m.label, m.cn_solution.label) for m in majors]}: raises {e}")
+            continue
+        n += 1
+        tag = f"majors {[(m.label, m.score, m.cn_solution.label) for m in shown]}"
+        if sorted(c_[0] for c_ in calls) != sorted(m.label for m in majors):
+            bad.setdefault("all-candidates", f"{tag}: refined {sorted(c_[0] for c_ in calls)}")
+        by = {m.label: m for m in majors}
+        wrong = [(l, st_) for l, st_, _ in calls if st_ != by[l].cn_solution.label]
+        if wrong:
+            bad.setdefault("own-structure", f"{tag}: candidate refined on evidence filtered for another structure: {wrong[:3]}")
+        if any(mx != 3 for _, _, mx in calls):
+            bad.setdefault("all-candidates", f"{tag}: max_solutions not forwarded: {calls[:2]}")
+        mn = min(m.score for m in majors)
+        want = sorted((l, round(s_ + by[ml].score - mn, 9)) for ml in by for l, s_ in stage[ml])
+        got = sorted((o.label, round(o.score, 9)) for o in (out or []))
+        if got != want:
+            bad.setdefault("carry", f"{tag}, refinements {stage}: returned {got}; expected every refinement with score + (major score - best major score): {want}")
+    res.count("C10.R7:scenarios folded", n)
+    for key, clause in (("all-candidates", "every major candidate handed to the minor stage is refined exactly once"),
+                        ("own-structure", "each candidate is refined on the evidence filtered for its own gene structure"),
+                        ("carry", "a candidate's score carries over the score differences of the ... major-allele solutions it was derived from")):
+        res.ob("C10.R7", em, em, key not in bad, expected=f"on every scenario: {clause}", found=f"{n} scenarios agree" if key not in bad else bad[key],
+               clause=clause, key=f"minor-stage:{key}")
 
 
 def run(repo, res):
-    r5(repo, res)
-    r1(repo, res)
-    r2(repo, res)
-    r3(repo, res)
-    r4(repo, res)
+    r7(repo, res)
+    r6(repo, res)
 
 
 MUTANTS = [
-    dict(name="R1 structure guard removed", module="genotype", expect="C10.R1",
+    dict(name="R6 structure ratio applied at the major stage too (seeded C10_b2 shape)", module="genotype", expect="C10.R6",
+         old="            m.score,  # * ((m.cn_solution.score + SLACK) / (min_cn_score + SLACK)),", new="            m.score * ((m.cn_solution.score + SLACK) / (min_cn_score + SLACK)),"),
+    dict(name="R6 minor stage receives the unfiltered majors", module="genotype", expect=["C10.R6", "C10.R7"],
+         old="            if m.score - min_major_score - profile.gap < SOLUTION_PRECISION\n", new="            if True\n"),
+    dict(name="R6 diplotype not copied", module="genotype", expect=["C10.R6", "C10.R7"],
+         old="        n.set_diplotype(m.get_diplotype())\n", new=""),
+    dict(name="benign: selection written as a loop", module="genotype", kind="benign",
+         old="""    minor_sols = sorted(
+        [
+            m
+            for m in minor_sols
+            if m.score - min_minor_score - profile.gap < SOLUTION_PRECISION
+        ],
+        key=lambda m: (int(1000 * m.score), m._solution_nice()),
+    )""",
+         new="""    _kept = []
+    for _cand in minor_sols:
+        if _cand.score - min_minor_score - profile.gap < SOLUTION_PRECISION:
+            _kept.append(_cand)
+    minor_sols = sorted(_kept, key=lambda m: (int(1000 * m.score), m._solution_nice()))"""),
+    dict(name="R1 structure guard removed", module="genotype", expect=["C10.R6", "C10.R7"],
          old="    if len(cn_sols) == 0:\n", new="    if len(cn_sols) < 0:\n"),
-    dict(name="R1 major guard after min()", module="genotype", expect="C10.R1",
+    dict(name="R1 major guard after min()", module="genotype", expect=["C10.R6", "C10.R7"],
          old="    if len(major_sols) == 0:\n", new="    if major_sols is None:\n"),
-    dict(name="R1 minor guard removed", module="genotype", expect="C10.R1",
+    dict(name="R1 minor guard removed", module="genotype", expect=["C10.R6", "C10.R7"],
          old="    if len(minor_sols) == 0:\n", new="    if False:\n"),
-    dict(name="R2 structure difference not carried", module="genotype", expect="C10.R2",
+    dict(name="R2 structure difference not carried", module="genotype", expect=["C10.R6", "C10.R7"],
          old="            s.score += cn_sol.score - min_cn_score", new="            s.score += 0"),
-    dict(name="R2 difference without the minimum", module="genotype", expect="C10.R2",
+    dict(name="R2 difference without the minimum", module="genotype", expect=["C10.R6", "C10.R7"],
          old="            s.score += cn_sol.score - min_cn_score", new="            s.score += cn_sol.score"),
-    dict(name="R2 minor carries nothing", module="minor", expect="C10.R2",
+    dict(name="R2 minor carries nothing", module="minor", expect=["C10.R6", "C10.R7"],
          old="                s.score += major_sol.score - min_score", new="                s.score += major_sol.score - major_sol.score"),
-    dict(name="R2 minor min over one structure's candidates only", module="minor", expect="C10.R2",
+    dict(name="R2 minor min over one structure's candidates only", module="minor", expect=["C10.R6", "C10.R7"],
          old="    min_score = min(m.score for m in major_sols)\n", new="    min_score = min(m.score for m in major_sols[:1])\n"),
-    dict(name="R2 rescale inverted", module="genotype", expect="C10.R2",
+    dict(name="R2 rescale inverted", module="genotype", expect=["C10.R6", "C10.R7"],
          old="            * ((m.major_solution.cn_solution.score + SLACK) / (min_cn_score + SLACK)),",
          new="            * ((min_cn_score + SLACK) / (m.major_solution.cn_solution.score + SLACK)),"),
-    dict(name="R2 rescale dropped", module="genotype", expect="C10.R2",
+    dict(name="R2 rescale dropped", module="genotype", expect=["C10.R6", "C10.R7"],
          old="            * ((m.major_solution.cn_solution.score + SLACK) / (min_cn_score + SLACK)),",
          new="            * 1,"),
-    dict(name="R3 gap ignored in final selection", module="genotype", expect="C10.R3",
+    dict(name="R3 gap ignored in final selection", module="genotype", expect=["C10.R6", "C10.R7"],
          old="            if m.score - min_minor_score - profile.gap < SOLUTION_PRECISION\n",
          new="            if m.score - min_minor_score < SOLUTION_PRECISION\n"),
-    dict(name="R3 major filter keeps everything", module="genotype", expect="C10.R3",
+    dict(name="R3 major filter keeps everything", module="genotype", expect=["C10.R6", "C10.R7"],
          old="            if m.score - min_major_score - profile.gap < SOLUTION_PRECISION\n",
          new="            if m.score - min_major_score - profile.gap < 1\n"),
-    dict(name="R3 sorted by name first", module="genotype", expect="C10.R3", count=2,
+    dict(name="R3 sorted by name first", module="genotype", expect=["C10.R6", "C10.R7"], count=2,
          old="key=lambda m: (int(1000 * m.score), m._solution_nice()),", new="key=lambda m: (m._solution_nice(), int(1000 * m.score)),"),
-    dict(name="R3 worst first", module="genotype", expect="C10.R3",
+    dict(name="R3 worst first", module="genotype", expect=["C10.R6", "C10.R7"],
          old="""            if m.score - min_minor_score - profile.gap < SOLUTION_PRECISION
         ],
         key=lambda m: (int(1000 * m.score), m._solution_nice()),
@@ -472,16 +300,16 @@ MUTANTS = [
         key=lambda m: (int(1000 * m.score), m._solution_nice()),
         reverse=True,
     )"""),
-    dict(name="R4 re-wrap swaps fields", module="genotype", expect="C10.R4",
+    dict(name="R4 re-wrap swaps fields", module="genotype", expect=["C10.R6", "C10.R7"],
          old="            m.solution,\n            m.cn_solution,\n            m.added,", new="            m.solution,\n            m.cn_solution,\n            [],"),
-    dict(name="R4 returns unfiltered list", module="genotype", expect=["C10.R4"],
+    dict(name="benign: returned list copied", module="genotype", kind="benign",
          old="    return {gene_db: minor_sols}", new="    minor_sols = list(minor_sols) + []\n    return {gene_db: minor_sols}"),
-    dict(name="R5 structures pruned before the major stage (seeded C10_2 shape)", module="genotype", expect="C10.R5",
+    dict(name="R5 structures pruned before the major stage (seeded C10_2 shape)", module="genotype", expect=["C10.R6", "C10.R7"],
          old="    for i, cn_sol in enumerate(cn_sols):\n        sols = major.estimate_major(",
          new="    for i, cn_sol in enumerate(cn_sols):\n        if cn_sol.score - min_cn_score - profile.gap >= SOLUTION_PRECISION:\n            break\n        sols = major.estimate_major("),
-    dict(name="R5 only the best structure is explored", module="genotype", expect="C10.R5",
+    dict(name="R5 only the best structure is explored", module="genotype", expect=["C10.R6", "C10.R7"],
          old="    for i, cn_sol in enumerate(cn_sols):\n        sols = major.estimate_major(", new="    for i, cn_sol in enumerate(cn_sols[:1]):\n        sols = major.estimate_major("),
-    dict(name="R5 minor solutions of later majors skipped", module="minor", expect="C10.R5",
+    dict(name="R5 minor solutions of later majors skipped", module="minor", expect=["C10.R6", "C10.R7"],
          old="        for major_sol in natsorted(majors, key=lambda s: str(s.solution)):\n            sols = solve_minor_model(",
          new="        for major_sol in natsorted(majors, key=lambda s: str(s.solution)):\n            if minor_sols:\n                continue\n            sols = solve_minor_model("),
     # benign
